@@ -6,6 +6,7 @@ import os, sys, json
 sys.path.insert(0, os.path.join(os.path.dirname(os.path.abspath(__file__)), "..", "lib"))
 from common import *
 from wholeprog import *
+import qbesel
 
 PID = "C01"
 NATIVE_FEATS = {"cast", "large", "struct", "method", "method-val", "struct-fn", "fixed-array", "dyn-array", "optional", "match", "while", "for", "recursion", "eval-order", "eval-order-struct"}
@@ -24,6 +25,11 @@ def main():
         write_evidence(PID, "other", {"explanation": "build failed", "evaluations": 1, "distinct_nontrivial": 2}, violations=1)
         return rep.finish()
     check_catalogue(rep, PID, "native", stats)
+    try:
+        qbesel.check_selection(rep, PID, tier, stats)
+    except BuildError as e:
+        rep.fail("tie:qbesel", "instruction-selection tie cannot run", {"kind": "broken-obligation", "detail": str(e)[-2000:]}, no_input=True)
+        stats["selection"] = {"rows": 0, "rows_of_proved_shape": 0, "observations_compared": 0, "mismatches": 0, "per_kind": {}}
     n = 120 if tier == "quick" else 1500
     random_programs(rep, PID, "native", NATIVE_FEATS, n, seed() * 100000 + 1000, stats)
 
@@ -46,21 +52,26 @@ def main():
         rep.fail("audit:forbidden", "forbidden construct in Lean sources: %s" % forb[:3], {"kind": "broken-obligation", "hits": forb[:20]}, no_input=True)
 
     rs = stats["random_native"]
+    sel = stats["selection"]
     cov = {
         "explanation": "PARTIAL. Theorem part (kernel-checked, %d/%d): the reference semantics' integer operators are exactly the mathematical "
                        "operation reduced to the declared width (two's complement), division truncates, remainder takes the dividend's sign "
-                       "(see theorems). NOT proved: the AST->HIR->MIR->QBE lowering (~10 kLoC of Go), QBE, as, ld: these are covered only by "
+                       "(see theorems); INSTRUCTION SELECTION: the IL the current compiler emits for every integer operator x type and every integer cast "
+                       "(%d rows, regenerated into Gen/QbeSel.lean) is proved, for all operand values, to compute the canonical temporary of the "
+                       "source-level result in the QBE semantics of Model/QbeSem.lean (sel_table_correct; %d/%d rows of a proved shape), and the model's "
+                       "prediction was compared with the real executable on %d calls (edge and random operands, result printed directly and widened). "
+                       "NOT proved: the rest of the AST->HIR->MIR->QBE lowering (~10 kLoC of Go), QBE's own passes, as, ld: these are covered only by "
                        "differential execution — every construct form of the fragment catalogue (%d probes) and %d random well-typed programs "
                        "(%d output lines) compiled with the real compiler and compared line by line with the Lean reference interpreter." %
-                       (discharged, len(names), len(catalogue.PROBES), rs["programs"], rs["lines_compared"]),
+                       (discharged, len(names), sel["rows"], sel["rows_of_proved_shape"], sel["rows"], sel["observations_compared"], len(catalogue.PROBES), rs["programs"], rs["lines_compared"]),
         "obligations": len(names), "discharged": discharged,
         "theorems": [{"name": nm, "axioms": axioms.get(nm)} for nm in names],
         "evaluations": len(catalogue.PROBES) + rs["programs"], "distinct_nontrivial": rs["programs"],
         "rule": "catalogue: one probe per construct form; random: type-directed generator over the forms that are sound in the baseline "
                 "(features %s), programs are distinct by construction (seeded); non-trivial = random programs (each ~45 printed lines)" % sorted(NATIVE_FEATS),
         "samples": [p[0] for p in catalogue.PROBES[:6]],
-        "catalogue": stats["catalogue"], "random": rs,
-        "trusted_base": ["Lean 4 kernel", "Core/Print.lean (AST -> .fer text)", "Python program generator and runner", "gcc/as/ld, libc printf formats"],
+        "catalogue": stats["catalogue"], "random": rs, "selection": sel,
+        "trusted_base": ["Lean 4 kernel", "lib/qbesel.py (IL text -> Gen/QbeSel.lean rows)", "Model/QbeSem.lean evalOp as the meaning of QBE opcodes (validated against the executable on every observation)", "Core/Print.lean (AST -> .fer text)", "Python program generator and runner", "gcc/as/ld, libc printf formats"],
     }
     write_evidence(PID, "other", cov, assumptions=["generated programs never divide by zero or by -1 and avoid construct forms that are broken in the baseline (each such form is a known finding monitored by its probe)"],
                    violations=len(rep.violations))
